@@ -3,6 +3,16 @@
 import json, subprocess, sys
 
 CLAIMED = {
+ "C01": ("transfer-completeness, dominating-guard and must-pass-through rules over go/cfg + source call graph",
+         "Static necessary conditions of table-content integrity on every path: the tombstone survives every cell copy (split), every row handed to a scan callback or returned by lookup is dominated by the not-deleted edge, the row-id counter is confined and advanced on every success path, a root move is detected after every BTree.insert and recorded in the catalog / logged, both split paths install a new root the same way, and every page changed by an insert is marked dirty before the function returns.",
+         "Does not decide that scans visit every live row exactly once for arbitrary split patterns nor equality with a model over histories; assumes ascending keys.", "DESIGN.md §4 C01"),
+ "C03": ("wire-framing symmetry + path enumeration of the log reader under each end-of-file error + the C02 redo rules",
+         "Static necessary conditions for surviving a crash inside the log append: writer/reader framing agree (u32le length of the encoded body, then the body), records are written in batch order inside their iteration, the reader treats a cut inside the last record (io.EOF / io.ErrUnexpectedEOF at either read) as end of log and never returns it as an error, plus the per-record freshness/guard/do-redo rules of C02 that make a prefix of records a prefix of row operations.",
+         "Does not decide that the recovered state is a row-prefix state; in particular the two-record root move (insert record, then catalog record) is not analysed.", "DESIGN.md §4 C03"),
+ "C11": ("structural index-arithmetic, paired-store and must-pass-through rules on the insert/split code (go/ast, go/cfg)",
+         "Static necessary conditions of tree shape: sibling links are assigned in matched pairs with their flags, a fullness test follows every cell add and its full edge leads to split, split keeps [0,M) and moves exactly [M,len) (leaf) / promotes M and moves [M+1,len) with the rightmost children handed over in the right order (internal), persisted cell fields survive the copy, the page allocator only advances by one page, a new root is installed identically on both split paths, every changed page is marked dirty, the parent receives separator and children consistently.",
+         "Key order, separator bounds and equal depth are inductive invariants over histories and are not decided; a refactoring of split into a shape the extractor does not know yields UNDECIDED.", "DESIGN.md §4 C11"),
+
  # id: (technique, level text, level note, design ref)
  "C02": ("CFG must-pass-through + do/redo table agreement + wire-grammar symmetry (go/cfg, go/types)",
          "Static necessary conditions of crash durability, decided on every path of the statement, logging, log-writer, replay and flush functions: log-before-acknowledge, fsync per record, a fresh LSN per logged operation, redo-guard polarity and coverage, do/redo agreement per WAL operation, record/page/cell/LSN agreement, codec symmetry of log records and file header, flush order, recovery leaving the LSN counter above every replayed record. Each clause, when broken, loses or misapplies an acknowledged statement for some crash point; together they do NOT prove that recovery reconstructs every state.",
